@@ -373,6 +373,50 @@ Section F.
     intros H. eapply IH; [|exact H]. eapply dstep_nl; eauto.
   Qed.
 
+  (* ---- the ledger of written bytes: dc_sent grows by exactly the bytes of the visit's write event ---- *)
+  Definition wrote_in (evs : list sysev) : text := flat_map (fun e => match e with SysCliWrote _ w => w | _ => [] end) evs.
+
+  Lemma handle_input_sent fuel : forall st i acc st' evs,
+    handle_input fuel st i acc = Ok (st', evs) ->
+    forall x x', nth_error (dm_clients st) i = Some x -> nth_error (dm_clients st') i = Some x' ->
+      dc_sent x' = dc_sent x /\ dc_eof x' = dc_eof x /\ dc_bad x' = dc_bad x.
+  Proof.
+    induction fuel as [|f IH]; intros st i acc st' evs; cbn [Daemon.handle_input].
+    - intros H x x' Hx Hx'. inversion H; subst. rewrite Hx in Hx'. inversion Hx'; auto.
+    - destruct (nth_error (dm_clients st) i) as [y|] eqn:En; [|intros H x x' Hx; discriminate].
+      destruct (take_line [] (dc_from y)) as [[line rest]|].
+      2:{ intros H x x' Hx Hx'. inversion H; subst. rewrite En in Hx'. inversion Hx; inversion Hx'; subst. auto. }
+      destruct (parse_input _ _ _ _ _ _ _ _) as [[[cf' store'] c'] q].
+      match goal with |- match ?e with _ => _ end = _ -> _ => destruct e as [devs'| | | |]; try discriminate end.
+      intros H x x' Hx Hx'. inversion Hx; subst y.
+      match type of H with Daemon.handle_input _ _ _ _ _ ?s _ _ = _ =>
+        assert (Hm : nth_error (dm_clients s) i = Some (set_dc c' (mkDcli (dc x) rest (dc_to x) (dc_nl x) (S (dc_lines x)) (dc_eof x) (dc_bad x) (dc_sent x))))
+          by (cbn [dm_clients]; exact (nth_error_upd_nth_eq _ _ _ _ En)) end.
+      destruct (IH _ _ _ _ _ H _ _ Hm Hx') as (A & B & C). cbn [set_dc dc_sent dc_eof dc_bad] in *. auto.
+  Qed.
+
+  Lemma cli_one_sent st i ci st' evs dead x x' :
+    cli_one st i ci = Ok (st', evs, dead) -> nth_error (dm_clients st) i = Some x -> nth_error (dm_clients st') i = Some x' ->
+    dc_sent x' = dc_sent x ++ wrote_in evs.
+  Proof.
+    unfold Daemon.cli_one. intros H En Hx'. rewrite En in H.
+    destruct (ci_bad ci); [inversion H; subst; rewrite En in Hx'; inversion Hx'; subst; cbn; now rewrite app_nil_r|].
+    match type of H with context [if ci_in ci then ?a else x] => set (x1 := if ci_in ci then a else x) in H end.
+    assert (Hx1 : dc_sent x1 = dc_sent x) by (unfold x1; destruct (ci_in ci); [destruct (ci_read ci) as [[|b0 br]|]|]; reflexivity).
+    clearbody x1.
+    match type of H with context [let '(x2, w) := ?e in _] => destruct e as [x2 w] eqn:E2 end.
+    match type of H with match ?e with _ => _ end = _ => destruct e as [[st2 evs2]| | | |] eqn:Eh; try discriminate end.
+    inversion H; subst. pose proof (handle_input_acc _ _ _ _ _ _ Eh) as Hacc. subst evs.
+    assert (Hm : nth_error (dm_clients (mkDaemon (dm_nodes st) (dm_aliases st) (dm_specs st) (dm_pipe st) (dm_devs st)
+                                                  (upd_nth (dm_clients st) i (fun _ => x2)) (dm_seq st) (dm_store st) (dm_version st) (dm_tel st))) i = Some x2)
+      by (cbn [dm_clients]; exact (nth_error_upd_nth_eq _ _ _ _ En)).
+    destruct (handle_input_sent _ _ _ _ _ _ Eh _ _ Hm Hx') as (A & _ & _). rewrite A.
+    destruct (ci_out ci); [destruct (ci_wrote ci) as [n|]|]; inversion E2; subst x2 w; cbn [dc_sent set_quit dc].
+    - rewrite Hx1. destruct (firstn n _) eqn:Ef; cbn [wrote_in flat_map]; now rewrite ?app_nil_r.
+    - cbn [wrote_in flat_map]. now rewrite app_nil_r.
+    - cbn [wrote_in flat_map]. now rewrite app_nil_r.
+  Qed.
+
   (* ---- one whole pass ---- *)
   Theorem dstep_isolation st r st' o p x :
     dstep st r = Ok (st', o) ->
